@@ -479,6 +479,7 @@ func newProducer(b *sarama.MockBroker, conf *sarama.Config, ntopics, nparts int)
 }
 
 var stuckSeen bool
+var tracerG *tracer
 
 type reqObs struct {
 	Batches [][]int64 `json:"batches"` // topic, partition, ids...
@@ -512,6 +513,7 @@ func runBroker(r *rand.Rand, c cfgSpec, msgs []msgSpec, ntopics, nparts int, lat
 		return nil, nil, nil, err
 	}
 	defer client.Close()
+	tracerG.register(prod, c, msgs, "broker")
 	codes := map[int64]int64{}
 	var wg sync.WaitGroup
 	wg.Add(2)
@@ -767,6 +769,11 @@ func runFlush(fc flushCase) ([]bool, error) {
 		return nil, err
 	}
 	_ = client // closed with the process: an abandoned producer still uses it
+	var all []msgSpec
+	for _, ms := range fc.Rounds {
+		all = append(all, ms...)
+	}
+	tracerG.register(prod, fc.C, all, "flush:"+fc.Class)
 	wait := 400 * time.Millisecond
 	if fc.Expect {
 		wait = 15 * time.Second
@@ -831,6 +838,7 @@ type dropCase struct {
 	First  []msgSpec `json:"first"`  // request A (partition 0)
 	Bulk   []msgSpec `json:"bulk"`   // partition 0, waiting behind A
 	Rest   []msgSpec `json:"rest"`   // other partitions, waiting behind A
+	Extra  []msgSpec `json:"extra"`  // partition 0, arrives when the buffer is full (MaxMessages): the worker waits for space
 	NParts int       `json:"nparts"`
 }
 
@@ -859,11 +867,25 @@ func genDrop(r *rand.Rand, id int) dropCase {
 		}
 	}
 	nrest := 1 + r.Intn(2)
+	if id%4 == 3 {
+		nrest = 0 // the response empties the waiting buffer altogether (handleResponse rolls it over)
+	}
 	if dc.Mode == "messages" && nrest >= c.FlushMessages {
 		nrest = c.FlushMessages - 1
 	}
 	for i := 0; i < nrest; i++ {
 		dc.Rest = append(dc.Rest, mk(int32(1+r.Intn(dc.NParts-1)), 5+r.Intn(30)))
+	}
+	if id%2 == 1 {
+		// one more message for partition 0 finds the buffer full and waits for space; the response then both makes room
+		// (partition 0 dropped) and makes partition 0 need a retry: the message must go back, not into the buffer
+		c.MaxMessages = len(dc.Bulk) + len(dc.Rest)
+		if c.MaxMessages < c.FlushMessages {
+			c.MaxMessages = c.FlushMessages
+		}
+		if c.MaxMessages == len(dc.Bulk)+len(dc.Rest) && len(dc.First) <= c.MaxMessages {
+			dc.Extra = []msgSpec{mk(0, 10+r.Intn(30))}
+		}
 	}
 	dc.C = c
 	return dc
@@ -897,6 +919,7 @@ func runDrop(dc dropCase) (bool, error) {
 		return false, err
 	}
 	_ = client
+	tracerG.register(prod, dc.C, append(append(append(append([]msgSpec{}, dc.First...), dc.Bulk...), dc.Rest...), dc.Extra...), "drop:"+dc.Mode)
 	for _, m := range dc.First {
 		prod.Input() <- m.build()
 	}
@@ -914,9 +937,15 @@ func runDrop(dc dropCase) (bool, error) {
 		prod.Input() <- m.build()
 	}
 	time.Sleep(40 * time.Millisecond) // let them reach the broker worker's buffer
+	for _, m := range dc.Extra {
+		prod.Input() <- m.build()
+	}
+	if len(dc.Extra) > 0 {
+		time.Sleep(20 * time.Millisecond)
+	}
 	md1.Set(md(2))
 	gated.Open()
-	total := len(dc.First) + len(dc.Bulk) + len(dc.Rest)
+	total := len(dc.First) + len(dc.Bulk) + len(dc.Rest) + len(dc.Extra)
 	got := 0
 	deadline := time.After(15 * time.Second)
 loop:
@@ -969,6 +998,8 @@ func main() {
 		sarama.Logger = log.New(os.Stderr, "[sarama] ", log.Lmicroseconds)
 	}
 	r := rand.New(rand.NewSource(*seed))
+	tracerG = newTracer()
+	sarama.VerifSetObserver(tracerG.observe)
 	topicNames = []string{"t0", "t1", "t2"}
 	for i := 3; i < 70; i++ {
 		topicNames = append(topicNames, fmt.Sprintf("wide-topic-%03d-%s", i, strings.Repeat("x", 225)))
@@ -1130,15 +1161,20 @@ func main() {
 		w1 = append(w1, "EvHandOff")
 		w1 = append(w1, coqEvMsgs(dc.Bulk)...)
 		w1 = append(w1, coqEvMsgs(dc.Rest)...)
-		w1 = append(w1, "EvResponse [(0, 0)] false")
-		w2 := append(coqEvMsgs(dc.First), coqEvMsgs(dc.Bulk)...)
+		w1 = append(w1, coqEvMsgs(dc.Extra)...)
+		w1 = append(w1, fmt.Sprintf("EvResponse [(0, 0)] %s", cf.Bool(len(dc.Extra) > 0)))
+		w2 := append(append(coqEvMsgs(dc.First), coqEvMsgs(dc.Bulk)...), coqEvMsgs(dc.Extra)...)
 		term := fmt.Sprintf("{| ec_cfg := %s; ec_workers := [%s; %s]; ec_flushed := %s |}", dc.C.coq(), cf.List(w1), cf.List(w2), cf.Bool(dres[i]))
 		we.Add(term, cf.Sidecar{Case: map[string]interface{}{"case": dc, "flushed": dres[i]}, Kind: "drop:" + dc.Mode, Nontrivial: true, Monitor: mon})
 	}
+	sarama.VerifSetObserver(nil)
+	wt := &cf.Writer{Dir: *out, Prefix: "cases_trace", Imports: imports, CaseType: "tcase", MismatchFn: "mismatches_t", ShardSize: 60}
+	tracerG.write(wt)
 	ws.Close()
 	wb.Close()
 	wf.Close()
 	we.Close()
+	wt.Close()
 }
 
 type nopLogger struct{}
